@@ -83,6 +83,8 @@ PruneKeeps  == \A h \in Retained : PruneKeepsAt(db, h)
 \* the node's own state carries the prescribed sets (recovery = uninterrupted application)
 RecoveryExact == /\ SetView(st.nvals) = truth[NextBlockHeight(st) + 1]
                  /\ SetView(st.vals) = truth[NextBlockHeight(st)]
+\* whoever skips up to 4 rounds at the next height agrees with whoever walks them
+ProposerDeterministic == \A k \in 1..4 : ProposerDeterministicAt(st.vals, k) /\ ProposerDeterministicAt(st.nvals, k)
 TruthWellFormed == \A h \in DOMAIN truth : WellFormed(truth[h].vals) /\ NoClip(truth[h].vals)
 \* the proposer stored with a set is the member its last rotation chose
 ProposerIsMember == \A h \in DOMAIN truth : \E i \in DOMAIN truth[h].vals : truth[h].vals[i] = truth[h].prop
